@@ -91,6 +91,18 @@ def _own_walk(fn):
                 stack.append(c)
 
 
+def _comp_bound_ids(fn):
+    """ids of Name nodes that belong to a comprehension's own scope (its targets and their uses inside it)"""
+    out = set()
+    for c in ast.walk(fn):
+        if isinstance(c, (ast.ListComp, ast.SetComp, ast.DictComp, ast.GeneratorExp)):
+            bound = {n.id for g in c.generators for n in ast.walk(g.target) if isinstance(n, ast.Name)}
+            for n in ast.walk(c):
+                if isinstance(n, ast.Name) and n.id in bound:
+                    out.add(id(n))
+    return out
+
+
 def _chain(fn, target):
     """[(list, index)] of the statements enclosing `target`, outermost first"""
     def go(stmts):
@@ -176,8 +188,10 @@ def outline(cls_node, fn, marker, name, order_hint=()):
     writes = _names(region, ast.Store)
     if set(writes) & captured or 'self' in writes:
         return None
-    outside_loads = [n.id for n in _own_walk(fn) if isinstance(n, ast.Name) and isinstance(n.ctx, ast.Load) and id(n) not in rids]
-    outside_stores = {n.id for n in _own_walk(fn) if isinstance(n, ast.Name) and isinstance(n.ctx, ast.Store) and id(n) not in rids} | set(params)
+    comp = _comp_bound_ids(fn)
+    outside_loads = [n.id for n in _own_walk(fn) if isinstance(n, ast.Name) and isinstance(n.ctx, ast.Load) and id(n) not in rids and id(n) not in comp]
+    outside_stores = {n.id for n in _own_walk(fn) if isinstance(n, ast.Name) and isinstance(n.ctx, ast.Store) and id(n) not in rids and
+                      id(n) not in comp} | set(params)
     outs = [w for w in writes if w in outside_loads]
     da = _definitely_assigned(region)
     ins = [x for x in _names(region, ast.Load) if x in locals_ and x in outside_stores]
@@ -229,8 +243,10 @@ def outline_block(cls_node, fn, marker, name, order_hint=()):
         writes = _names(block, ast.Store) + [n.name for s in block for n in ast.walk(s) if isinstance(n, ast.ExceptHandler) and n.name]
         if set(writes) & captured or 'self' in writes:
             continue
-        outside_loads = [n.id for n in _own_walk(fn) if isinstance(n, ast.Name) and isinstance(n.ctx, ast.Load) and id(n) not in rids]
-        outside_stores = {n.id for n in _own_walk(fn) if isinstance(n, ast.Name) and isinstance(n.ctx, ast.Store) and id(n) not in rids} | set(params)
+        comp = _comp_bound_ids(fn)
+        outside_loads = [n.id for n in _own_walk(fn) if isinstance(n, ast.Name) and isinstance(n.ctx, ast.Load) and id(n) not in rids and id(n) not in comp]
+        outside_stores = {n.id for n in _own_walk(fn) if isinstance(n, ast.Name) and isinstance(n.ctx, ast.Store) and id(n) not in rids and
+                          id(n) not in comp} | set(params)
         ins = [x for x in _names(block, ast.Load) if x in locals_ and x in outside_stores and x != 'self']
         outs = [] if _terminates(block) else [w for w in writes if w in outside_loads]
         da = _definitely_assigned(block)
@@ -288,6 +304,9 @@ ROLES = [
     # (module, class, pinned owner of the marker, marker predicate (or factory taking the class), name of the synthetic method, kind)
     ('playback.tape_recorder', 'TapeRecorder', '_should_sample_active_recording', _is_draw, '_sampling_decision__outlined', 'pure'),
     ('playback.studio.equalizer', 'Equalizer', '_handle_compare_execution_timeout', _is_kill_call, '_timeout_path__outlined', 'block'),
+    ('playback.studio.studio', 'PlaybackStudio', '_group_recording_ids_by_categories',
+     lambda n: isinstance(n, ast.Call) and isinstance(n.func, ast.Attribute) and n.func.attr == 'extract_recording_category',
+     '_grouping__outlined', 'block'),
 ]
 
 
